@@ -175,10 +175,16 @@ func (i *Domain) Distance(
 			return
 		}
 		if iter.TimeRange().ContainsStamp(tr.End) {
-			if err = r.Close(); err != nil {
+			// r is released by the deferral above, so it must never be left nil: the
+			// reader on the next domain is acquired first and only replaces r once it
+			// exists.
+			var next *domain.Reader
+			if next, err = iter.OpenReader(ctx); err != nil {
 				return
 			}
-			if r, err = iter.OpenReader(ctx); err != nil {
+			err = r.Close()
+			r = next
+			if err != nil {
 				return
 			}
 			if endApprox, err = i.search(tr.End, r); err != nil {
@@ -316,10 +322,15 @@ func (i *Domain) forwardStamp(
 			domainLen = sampleCount(iter.Size())
 			totalTraversed += domainLen
 			if endOffset < totalTraversed {
-				if err = r.Close(); err != nil {
+				// r is released by the deferral above, so it must never be left nil:
+				// the reader on this domain is acquired first and only replaces r
+				// once it exists.
+				var next *domain.Reader
+				if next, err = iter.OpenReader(ctx); err != nil {
 					return
 				}
-				r, err = iter.OpenReader(ctx)
+				err = r.Close()
+				r = next
 				if err != nil {
 					return
 				}
@@ -459,10 +470,15 @@ func (i *Domain) backwardStamp(
 			domainLen = sampleCount(iter.Size())
 			totalTraversed += domainLen
 			if endOffset <= totalTraversed {
-				if err = r.Close(); err != nil {
+				// r is released by the deferral above, so it must never be left nil:
+				// the reader on this domain is acquired first and only replaces r
+				// once it exists.
+				var next *domain.Reader
+				if next, err = iter.OpenReader(ctx); err != nil {
 					return
 				}
-				r, err = iter.OpenReader(ctx)
+				err = r.Close()
+				r = next
 				if err != nil {
 					return
 				}
